@@ -49,6 +49,12 @@ type FuncCtx struct {
 	pendingParts []clausePart
 	pendingGuard Term
 	constGlobals map[string]Term
+	inLemma     bool
+	seenRefs    map[string][]Term
+	seenRefSet  map[string]bool
+	idxTerms    []Term
+	idxSeen     map[string]bool
+	quants      []*quantAssume
 	privateRefs []privRef
 }
 
@@ -710,6 +716,61 @@ func (c *FuncCtx) strWF(s Term) Term {
 }
 
 // newRef allocates a fresh non-nil reference distinct from all earlier allocations of this query.
+// noteRef remembers a reference obtained from the environment (parameter, load, call result) as a
+// pointer into heap array `key`; later allocations into that array are distinct from it.
+func (c *FuncCtx) noteRef(key string, t Term) {
+	if c.seenRefs == nil {
+		c.seenRefs = map[string][]Term{}
+		c.seenRefSet = map[string]bool{}
+	}
+	id := key + "|" + t.S
+	if c.seenRefSet[id] || len(c.seenRefs[key]) > 400 {
+		return
+	}
+	c.seenRefSet[id] = true
+	c.seenRefs[key] = append(c.seenRefs[key], t)
+}
+
+// noteValueRefs records the references directly contained in a value of type t.
+func (c *FuncCtx) noteValueRefs(v Term, t types.Type) {
+	switch u := t.Underlying().(type) {
+	case *types.Slice:
+		c.noteRef(elemKey(c.sortOf(u.Elem())), slPtr(v))
+	case *types.Pointer:
+		if arr, ok := u.Elem().Underlying().(*types.Array); ok {
+			c.noteRef(elemKey(c.sortOf(arr.Elem())), v)
+		} else {
+			c.noteRef(heapKey(c.sortOf(u.Elem())), v)
+		}
+	case *types.Struct:
+		if c.wfDepth > 2 {
+			return
+		}
+		c.wfDepth++
+		for i := 0; i < u.NumFields(); i++ {
+			switch u.Field(i).Type().Underlying().(type) {
+			case *types.Slice, *types.Pointer:
+				c.noteValueRefs(c.fieldSel(v, t, i), u.Field(i).Type())
+			}
+		}
+		c.wfDepth--
+	}
+}
+
+// newRefIn allocates a fresh object in heap array `key`: distinct from every reference into that
+// array obtained before.
+func (c *FuncCtx) newRefIn(label, key string) Term {
+	r := c.newRef(label)
+	var parts []Term
+	for _, t := range c.seenRefs[key] {
+		parts = append(parts, not(eq(r, t)))
+	}
+	if len(parts) > 0 {
+		c.sc.assume(and(parts...))
+	}
+	return r
+}
+
 func (c *FuncCtx) newRef(label string) Term {
 	r := c.sc.fresh(label, SRef)
 	c.sc.declFun("alloc_id", []Sort{SRef}, SInt)
@@ -961,7 +1022,15 @@ func (fr *Frame) oblige(kind, detail string, goal Term, pos token.Pos, what stri
 	c.oblCount[base]++
 	name := fmt.Sprintf("%s#%d", base, c.oblCount[base])
 	g := c.sc.define("goal", goal)
-	o := &Obligation{Name: name, Kind: kind, Func: c.funcName, Props: c.props, Goal: g, Detail: what}
+	// universally quantified index variables of the goal are replaced by fresh constants (proving
+	// the body for an arbitrary constant proves the forall); the constants become index terms, so
+	// the quantified assumptions get instantiated with them
+	proveGoal := g
+	sk, extra := c.skolemizeGoal(goal.S)
+	if sk != goal.S {
+		proveGoal = Term{sk, SBool}
+	}
+	o := &Obligation{Name: name, Kind: kind, Func: c.funcName, Props: c.props, Goal: proveGoal, Detail: what, Extra: extra}
 	if c.pendingParts != nil {
 		for _, p := range c.pendingParts {
 			o.Parts = append(o.Parts, clausePart{p.Text, c.sc.define("part", implies(c.pendingGuard, p.Goal))})
@@ -973,6 +1042,7 @@ func (fr *Frame) oblige(kind, detail string, goal Term, pos token.Pos, what stri
 	}
 	c.sc.oblige(o)
 	c.sc.assume(g) // a checked obligation is assumed afterwards
+	c.noteAssumption(goal.S)
 	return o
 }
 
